@@ -127,6 +127,9 @@ func (b *BN) Genesis(context.Context, *eth2api.GenesisOpts) (*eth2api.Response[*
 }
 
 func (b *BN) Spec(context.Context, *eth2api.SpecOpts) (*eth2api.Response[map[string]any], error) {
+	if err := b.failOnly("spec"); err != nil {
+		return nil, err
+	}
 	m := map[string]any{"SECONDS_PER_SLOT": b.SlotDur, "SLOTS_PER_EPOCH": b.SPE, "TARGET_AGGREGATORS_PER_COMMITTEE": uint64(16)}
 	for k, v := range DomainTypes {
 		m[k] = v
@@ -242,6 +245,18 @@ func (b *BN) enter(endpoint string) error {
 		time.Sleep(lat)
 	}
 	if failing {
+		return errScripted
+	}
+	return nil
+}
+
+// failOnly consumes one scheduled failure of the endpoint, if any (no latency, no call log): for endpoints
+// that every component calls all the time and that only fail when a check scripts it (Fail("spec", n)).
+func (b *BN) failOnly(endpoint string) error {
+	b.mu.Lock()
+	defer b.mu.Unlock()
+	if b.fail[endpoint] > 0 {
+		b.fail[endpoint]--
 		return errScripted
 	}
 	return nil
